@@ -10,10 +10,6 @@ are regenerated from z/btree.go on every run.  `TreeInv` / `PidInv` are the inva
 namespace RV.C16
 open RV.Tree Gen.Tree
 
-/-- the maintained statistics agree with the structure (what `reinit` recounts) -/
-def StatsOk (t : Tree) : Prop :=
-  t.a.leafKeys = countLeafKeys t.root ∧ t.a.pagesFree = t.a.free.length
-
 /-- **`c16_roundtrip`** — for every tree satisfying the invariants (hence after every history,
 including recycled pages), whose root is page 1 and whose pages fit the file (`FileOk`: the code
 grows the buffer before it uses a page; sizes fit a Go `int`): `reinit` of the file it leaves
@@ -69,13 +65,87 @@ theorem c16_continues (cfg : Cfg) (hc : CfgOk cfg) (t : Tree) (hinv : TreeInv cf
   have hp' : PidInv (reopened t) := ⟨hp.1, hp.2⟩
   refine ⟨_, (c16_roundtrip cfg hc t hinv hp hroot hf).1, hinv', hp', hroot, ?_⟩
   · intro k v hk
-    obtain ⟨s1, s2, s3⟩ := set_spec hc _ k v hinv' hk
+    obtain ⟨s1, s2, s3, _⟩ := set_spec hc _ k v hinv' hk
     refine ⟨s1, hp'.step s3, ?_⟩
     intro k' hk'
     rw [get_spec hc _ s1 k' hk', get_spec hc t hinv k' hk']
     unfold abs
     rw [s2, lookupD_ins]
     split <;> rfl
+
+/-! ## every history of a persistent tree -/
+
+/-- the invariants a persistent tree carries between operations (all but the room in the file):
+C10's ordering and page invariants, statistics that agree with the structure, root on page 1 -/
+structure Persist (cfg : Cfg) (t : Tree) : Prop where
+  inv : TreeInv cfg t
+  pid : PidInv t
+  stats : StatsOk t
+  root : t.root.pid = 1
+
+/-- operations on a persistent tree (`Op.reopen` = clean `Close` + `NewTreePersistent`) -/
+inductive Op where
+  | set (k : Key) (v : Val)
+  | del (ts : Val)
+  | iter (f : Key → Val → Val)
+  | reopen
+
+def applyOp (cfg : Cfg) (t : Tree) : Op → Tree
+  | .set k v => set cfg t k v
+  | .del ts => deleteBelow t ts
+  | .iter f => iterateKV t f
+  | .reopen => (reinit cfg (encode t)).getD t
+
+/-- A fresh persistent tree satisfies `Persist`, and every operation preserves it — including
+reopening, at any point of any history, with recycled pages on the free list.  Side conditions per
+step: the key of a `Set` is legal; fewer than 2^64 pages ever allocated; when reopening, the
+pages in use fit the file (`FileOk`). -/
+theorem c16_persist_step (cfg : Cfg) (hc : CfgOk cfg) (t : Tree) (h : Persist cfg t) (op : Op)
+    (hl : match op with
+      | .set k _ => setKeyPanic k = false
+      | .reopen => FileOk cfg t
+      | _ => True)
+    (hn : t.a.nextPage ≤ 2 ^ 64) :
+    Persist cfg (applyOp cfg t op) ∧
+    (match op with
+      | .reopen => reinit cfg (encode t) = some (applyOp cfg t op) ∧ (∀ k, abs (applyOp cfg t op) k = abs t k) ∧
+          stats cfg (applyOp cfg t op) = { stats cfg t with allocated := t.a.curSz - 8 } ∧
+          walk (applyOp cfg t op) = walk t ∧ (applyOp cfg t op).a.free = t.a.free ∧
+          (applyOp cfg t op).a.nextPage = t.a.nextPage
+      | _ => True) := by
+  cases op with
+  | set k v =>
+    have hs := set_stats hc t k v h.inv hl h.stats
+    exact ⟨⟨(set_spec hc t k v h.inv hl).1, set_pidInv hc t k v h.inv hl h.pid, hs.1, hs.2.trans h.root⟩, trivial⟩
+  | del ts =>
+    have hp := h.pid.posPid hn
+    have hs := deleteBelow_stats hc t ts h.inv hp h.stats
+    exact ⟨⟨(deleteBelow_spec hc t h.inv hp ts).1, deleteBelow_pidInv hc t ts h.inv h.pid hn, hs.1,
+      hs.2.trans h.root⟩, trivial⟩
+  | iter f =>
+    have hs := iterateKV_stats t f h.inv h.stats
+    exact ⟨⟨(iterateKV_spec t h.inv f).1, iterateKV_pidInv t f h.inv h.pid, hs.1, hs.2.trans h.root⟩, trivial⟩
+  | reopen =>
+    have hr := reinit_encode hc t h.inv h.pid h.root hl
+    have he : applyOp cfg t .reopen = reopened t := by simp [applyOp, hr]
+    rw [he]
+    obtain ⟨s1, s2⟩ := h.stats
+    refine ⟨⟨⟨h.inv.root_inner, h.inv.ok, rfl⟩, ⟨h.pid.1, h.pid.2⟩, ⟨rfl, rfl⟩, h.root⟩,
+      hr, fun _ => rfl, ?_, rfl, rfl, rfl⟩
+    simp [stats, reopened, s1, s2]
+
+theorem c16_persist_new (cfg : Cfg) (hc : CfgOk cfg) : Persist cfg (newTreeFile cfg) :=
+  ⟨(initRoot_spec hc _ rfl).1, newTreeFile_pidInv hc, (newTreeFile_stats hc).1, (newTreeFile_stats hc).2⟩
+
+/-- Where the room in the file (`FileOk.fits`) comes from: `newNode`, the only place that moves
+the frontier, grows the buffer first (generated comparisons of `newNode` and `Buffer.Grow`), so
+"the pages in use fit the data and the data fits the buffer behind its 8 bytes of padding" is
+kept.  (The threading of this single-step fact through `Set` is tied by the trace validation of
+`Stats.Allocated` only, hence `c16_roundtrip` keeps `FileOk` as a hypothesis.) -/
+theorem c16_newNode_keeps_room (cfg : Cfg) (a : Alloc) (h : AllocFits cfg a) (hb1 : a.curSz < 2 ^ 61)
+    (hb2 : (a.nextPage + 1) * cfg.pageSize < 2 ^ 61) :
+    AllocFits cfg (newNode cfg a).2 ∧ (newNode cfg a).2.nextPage * cfg.pageSize ≤ (newNode cfg a).2.curSz - 8 :=
+  ⟨newNode_fits cfg a h hb1 hb2, (newNode_fits cfg a h hb1 hb2).fileOk_fits⟩
 
 /-! ## non-vacuity: a concrete tree with recycled pages, evaluated by the kernel -/
 
